@@ -5,6 +5,7 @@ package c19
 // the tree that was drawn). All randomness comes from rapid; the resulting Case is plain data.
 
 import (
+	"regexp"
 	"strings"
 	"unicode"
 
@@ -179,10 +180,11 @@ func serialise(roots []*node, pretty bool) string {
 
 type gen struct {
 	*genEnv
-	t       *rapid.T
-	doctype bool // a doctype precedes the body
-	bytes   bool // this case may contain bytes that are not valid UTF-8
-	long    int  // this case contains a very long line of that many characters
+	t        *rapid.T
+	doctype  bool // a doctype precedes the body
+	attrCase int  // spelling of attribute names: 0 as drawn, 1 upper case, 2 mixed case
+	bytes    bool // this case may contain bytes that are not valid UTF-8
+	long     int  // this case contains a very long line of that many characters
 }
 
 // badBytes: text that is not valid UTF-8 (Latin-1 letters, a lead byte without continuation, 0xFF,
@@ -476,7 +478,13 @@ func (g *gen) attrs(tag string, extra ...attr) []attr {
 		a.val = g.sanitise(a.val)
 		a.quote = []byte{'"', '"', '"', '\'', 0}[g.n("q", 0, 4)]
 		a.raw = g.chance("araw", 2)
-		a.sep = g.pick("asep", []string{" ", " ", " ", "  ", "\n    ", "\n"})
+		a.sep = g.pick("asep", []string{" ", " ", " ", "  ", "\n    ", "\n", "\t", "\n\t\t"})
+		switch g.attrCase {
+		case 1:
+			a.name = strings.ToUpper(a.name)
+		case 2:
+			a.name = titleCase(a.name)
+		}
 		out = append(out, a)
 	}
 	for _, a := range extra {
@@ -904,7 +912,7 @@ func (g *gen) flow(depth int, fb forbid, max int) []*node {
 }
 
 func (g *gen) block(depth int, fb forbid) *node {
-	kind := g.n("bk", 0, 26)
+	kind := g.n("bk", 0, 27)
 	if depth <= 0 && kind < 6 {
 		kind = 6
 	}
@@ -1007,6 +1015,15 @@ func (g *gen) block(depth int, fb forbid) *node {
 		return g.noscript()
 	case 21:
 		return g.svg()
+	case 27:
+		// self-closing spelling of a non-void element: for the HTML5 parser the slash means nothing
+		// and the element stays open (both sides of the comparison read it the same way)
+		// (not inside form / a / button / label: their end tags do not simply close what is open)
+		if fb.form || fb.a || fb.button || fb.label {
+			return g.text(false)
+		}
+		tag := g.pick("sctag", []string{"slot", "slot", "my-card", "template", "x-icon", "div"})
+		return &node{tag: tag, void: true, slash: g.pick("scsl", []string{"/", " /"}), attrs: g.attrs(tag)}
 	case 22:
 		n := &node{tag: g.pick("fig", []string{"details", "figure", "fieldset"})}
 		cap := map[string]string{"details": "summary", "figure": "figcaption", "fieldset": "legend"}[n.tag]
@@ -1104,6 +1121,58 @@ func (g *gen) longBlock() *node {
 	}
 }
 
+var tagInSource = regexp.MustCompile(`(</?)([a-zA-Z][a-zA-Z0-9-]*)`)
+
+var structuralTags = map[string]bool{"html": true, "head": true, "body": true, "template": true, "slot": true, "table": true, "thead": true, "tbody": true, "tfoot": true, "tr": true, "td": true, "th": true, "caption": true, "colgroup": true, "col": true, "title": true, "script": true, "style": true, "pre": true, "textarea": true, "br": true, "img": true}
+
+func titleCase(s string) string {
+	b := []byte(strings.ToLower(s))
+	up := true
+	for i, ch := range b {
+		if ch >= 'a' && ch <= 'z' {
+			if up {
+				b[i] = ch - 32
+			}
+			up = false
+		} else {
+			up = true
+		}
+	}
+	return string(b)
+}
+
+// respellTags rewrites the tag names of a source (start and end tags) in another letter case;
+// HTML tag names are case-insensitive. only == nil means every tag.
+func respellTags(src string, f func(string) string, only map[string]bool) string {
+	return tagInSource.ReplaceAllStringFunc(src, func(m string) string {
+		sub := tagInSource.FindStringSubmatch(m)
+		if only != nil && !only[strings.ToLower(sub[2])] {
+			return m
+		}
+		return sub[1] + f(sub[2])
+	})
+}
+
+// respellEntities rewrites the named references &amp; &lt; &gt; &quot; as decimal (mode 0),
+// hexadecimal (mode 1) or alternating (mode 2) numeric references.
+func respellEntities(src string, mode int) string {
+	dec := map[string]string{"&amp;": "&#38;", "&lt;": "&#60;", "&gt;": "&#62;", "&quot;": "&#34;"}
+	hex := map[string]string{"&amp;": "&#x26;", "&lt;": "&#X3c;", "&gt;": "&#x3E;", "&quot;": "&#x22;"}
+	n := 0
+	return namedRef.ReplaceAllStringFunc(src, func(m string) string {
+		n++
+		switch {
+		case mode == 0, mode == 2 && n%3 == 1:
+			return dec[m]
+		case mode == 1, mode == 2 && n%3 == 2:
+			return hex[m]
+		}
+		return m
+	})
+}
+
+var namedRef = regexp.MustCompile(`&(amp|lt|gt|quot);`)
+
 // genCase draws one generated template; 1 in 40 gets 2-5 companions that are formatted at the
 // same time.
 func (g0 *genEnv) genCase(t *rapid.T) Case {
@@ -1125,6 +1194,9 @@ func (g0 *genEnv) genCase(t *rapid.T) Case {
 func (g0 *genEnv) genOne(t *rapid.T) Case {
 	g := &gen{genEnv: g0, t: t}
 	c := Case{Kind: "gen"}
+	if g.chance("attrcase", 6) {
+		g.attrCase = g.n("attrcasek", 1, 2)
+	}
 	g.bytes = g.chance("bytes", 10)
 	c.RawBytes = g.bytes
 	if g.chance("long", 60) {
@@ -1136,7 +1208,7 @@ func (g0 *genEnv) genOne(t *rapid.T) Case {
 	}
 	if g.chance("fm", 3) {
 		c.FrontMatter = g.frontMatter()
-		c.Gap = g.pick("gap", []string{"", "", "\n", "\n\n"})
+		c.Gap = g.pick("gap", []string{"", "", "\n", "\n\n", " \n", "\t\n\n", "  \n \n", "\n   \n\t"})
 	}
 	pretty := g.chance("pretty", 2)
 	shape := g.n("shape", 0, 9)
@@ -1193,7 +1265,10 @@ func (g0 *genEnv) genOne(t *rapid.T) Case {
 				c.Doctype = "<!DOCTYPE html>"
 			}
 		case 4:
-			c.Doctype = g.pick("dtx", []string{`<!DOCTYPE html PUBLIC "-//W3C//DTD XHTML 1.0 Strict//EN" "http://www.w3.org/TR/xhtml1/DTD/xhtml1-strict.dtd">`, "<!DOCTYPE HTML>", "<!DOCTYPE  html >"})
+			c.Doctype = g.pick("dtx", []string{`<!DOCTYPE html PUBLIC "-//W3C//DTD XHTML 1.0 Strict//EN" "http://www.w3.org/TR/xhtml1/DTD/xhtml1-strict.dtd">`, "<!DOCTYPE HTML>", "<!DOCTYPE  html >", "<!DocType Html>", "<!doctype HTML>", "<!Doctype html>"})
+			if !strings.HasPrefix(c.Doctype, "<!DOCTYPE") && g.avoid(fDocCase) {
+				c.Doctype = "<!DOCTYPE html>"
+			}
 		case 5: // no doctype: the document starts with <html
 		}
 		g.doctype = c.Doctype != ""
@@ -1215,6 +1290,29 @@ func (g0 *genEnv) genOne(t *rapid.T) Case {
 			src = g.pick("dtsep", []string{"\n", "\n", "", "\n\n"}) + src
 		}
 		c.Body = src
+	}
+	// spelling dimension: equivalent spellings of the same markup
+	switch g.n("tagcase", 0, 9) {
+	case 7:
+		c.Body = respellTags(c.Body, strings.ToUpper, nil)
+	case 8:
+		c.Body = respellTags(c.Body, titleCase, nil)
+	case 9:
+		c.Body = respellTags(c.Body, strings.ToUpper, structuralTags)
+	}
+	switch g.n("entspell", 0, 7) {
+	case 5:
+		c.Body = respellEntities(c.Body, 0)
+	case 6:
+		c.Body = respellEntities(c.Body, 1)
+	case 7:
+		c.Body = respellEntities(c.Body, 2)
+	}
+	switch {
+	case c.FrontMatter == "" && !c.Doc && c.Ctx == "" && g.chance("bom", 30):
+		c.Body = "\uFEFF" + c.Body
+	case g.chance("cr", 20):
+		c.Body = strings.ReplaceAll(strings.ReplaceAll(c.Body, "\r\n", "\n"), "\n", "\r")
 	}
 	if g.chance("crlf", 12) {
 		c.FrontMatter = strings.ReplaceAll(c.FrontMatter, "\n", "\r\n")
